@@ -4,6 +4,8 @@ CONSTANTS
   MA = 3
   LB = 6
   MaxCep = 7
+  CapFix = TRUE
+  MaxUtt = 1
   StartedFix = TRUE
 INVARIANTS NoRingOverrun SearchedAreWindows CompleteAtEnd
 VIEW View
